@@ -503,10 +503,97 @@ func raceFrozenClock(c *Ctx) {
 	racePassFinish(c, total, "Client with the built-in ticker collector and a clock that stands still: nothing is retransmitted or timed out")
 }
 
+// ---- C15: Close waits for the built-in collector, however long a handler takes ----
+
+type setClock struct {
+	mu sync.Mutex
+	t  time.Time
+}
+
+func (s *setClock) Now() time.Time { s.mu.Lock(); defer s.mu.Unlock(); return s.t }
+func (s *setClock) add(d time.Duration) {
+	s.mu.Lock()
+	s.t = s.t.Add(d)
+	s.mu.Unlock()
+}
+
+// raceSlowHandler: two requests time out in one tick of the built-in collector; the first time-out handler takes
+// 1.3 s; Close is called while it runs. When Close returns the collector must have finished: no handler may BEGIN
+// afterwards. The unchanged Close waits for the collector goroutine, which is inside that delivery loop, so the
+// assertion cannot fail because the machine is slow.
+func raceSlowHandler(c *Ctx) (int64, bool) {
+	iters := 1
+	if c.Thorough() {
+		iters = 3
+	}
+	var total int64
+	for it := 0; it < iters; it++ {
+		total++
+		conn := &raceConn{in: make(chan []byte, 4), closed: make(chan struct{})}
+		clk := &setClock{t: time.Date(2030, 1, 1, 0, 0, 0, 0, time.UTC)}
+		cl, err := stun.NewClient(conn, stun.WithClock(clk), stun.WithRTO(10*time.Millisecond), stun.WithNoRetransmit, stun.WithTimeoutRate(time.Millisecond))
+		if err != nil {
+			c.Fail("NewClient: %v", err)
+		}
+		var mu sync.Mutex
+		var closeReturned bool
+		begunAfterClose, calls := 0, 0
+		entered := make(chan struct{}, 2)
+		h := func(stun.Event) {
+			mu.Lock()
+			calls++
+			first := calls == 1
+			if closeReturned {
+				begunAfterClose++
+			}
+			mu.Unlock()
+			entered <- struct{}{}
+			if first {
+				time.Sleep(1300 * time.Millisecond)
+			}
+		}
+		for i := 0; i < 2; i++ {
+			if err := cl.Start(stun.MustBuild(stun.BindingRequest, stun.TransactionID), h); err != nil {
+				c.Fail("Start: %v", err)
+			}
+		}
+		clk.add(time.Hour) // both deadlines have passed: the next tick times both out
+		select {
+		case <-entered:
+		case <-time.After(20 * time.Second):
+			c.Res.Violations = append(c.Res.Violations, raceViolation("default-collector/no-timeout", "two lost requests were not timed out by the built-in collector within 20 s"))
+			_ = cl.Close()
+			return total, false
+		}
+		cerr := cl.Close()
+		mu.Lock()
+		closeReturned = true
+		n0 := calls
+		mu.Unlock()
+		time.Sleep(1600 * time.Millisecond) // lets a collector that outlived Close show itself
+		mu.Lock()
+		n1, late := calls, begunAfterClose
+		mu.Unlock()
+		if late > 0 || n1 != n0 {
+			c.Res.Violations = append(c.Res.Violations, raceViolation("default-collector/handler-after-close",
+				fmt.Sprintf("Close (returned %v) came back while the built-in collector was still delivering time-outs: %d handler call(s) began after Close had returned (%d calls when it returned, %d later); the first handler takes 1.3 s", cerr, late, n0, n1)))
+			return total, false
+		}
+	}
+	return total, true
+}
+
 func init() {
 	registry["C11"] = propImpl{Run: raceFrozenClock, Replay: racePassReplay(raceFrozenClock)}
 	registry["C10"] = propImpl{Run: raceDefaultCollector, Replay: racePassReplay(raceDefaultCollector)}
 	registry["C14"] = propImpl{Run: raceAgent, Replay: racePassReplay(raceAgent)}
-	registry["C15"] = propImpl{Run: raceClient, Replay: racePassReplay(raceClient)}
+	c15 := func(c *Ctx) {
+		if _, ok := raceSlowHandler(c); !ok {
+			racePassFinish(c, 1, "")
+			return
+		}
+		raceClient(c)
+	}
+	registry["C15"] = propImpl{Run: c15, Replay: racePassReplay(c15)}
 	registry["C18"] = propImpl{Run: raceHMAC, Replay: racePassReplay(raceHMAC)}
 }
